@@ -10,7 +10,9 @@ from gen import members, sweep
 
 RULE = ("circuits of every kind the API hands out are generated and their instruction lists inspected: (a) preparation, "
         "readout and compressed circuits for >= 1 constructed member of every (n, connectivity, LC class) [3 members for n<=5 "
-        "in quick; 12 / 8 in thorough] and for the graph state every table entry itself stores; (b) all 744 MUB circuits; (c) Hypothesis: tomography and stabilizer-measurement "
+        "in quick; 12 / 8 in thorough] and for the graph state every table entry itself stores; compressed circuits also for very "
+        "cheap inputs that ignore the connectivity (Bell pair on a coupled pair moved by a SWAP between arbitrary qubits -- all of "
+        "them -- and 40 drawn short circuits with SWAPs anywhere per configuration); (b) all 744 MUB circuits; (c) Hypothesis: tomography and stabilizer-measurement "
         "circuits on ordered m-subsets of N <= 8 qubits (only the instructions after the caller's preparation prefix, "
         "mapped back through the qubit list); (d) exhaustively: get_connectivity_graph for the 20 configurations vs. the "
         "transcribed edge table. A case is one returned circuit; non-trivial = contains >= 1 two-qubit gate and the "
@@ -240,8 +242,46 @@ def shard_measure(arg):
     return rep
 
 
+def shard_cheap_inputs(arg):
+    """compressed circuits for very cheap inputs that themselves ignore the connectivity: a Bell pair made on a coupled pair and
+    moved by a SWAP between arbitrary qubits, plus rng-drawn short circuits with CX/CZ on coupled pairs and SWAPs anywhere"""
+    n, name, seed = arg
+    rep = fw.Report()
+    edges = sorted(coupling.edge_set(n, name))
+    pairs = [(i, j) for i in range(n) for j in range(i + 1, n)]
+    inputs = []
+    for (a0, b0) in edges:
+        for (a, b) in ((a0, b0), (b0, a0)):
+            for s1 in pairs:
+                if set(s1) & {a, b}:
+                    inputs.append([["h", [a]], ["cx", [a, b]], ["swap", list(s1)]])
+    rng = fw.rng_for("c02cheap", seed, n, name)
+    for _ in range(40):
+        ops = [["h", [q]] for q in range(n) if rng.random() < 0.5]
+        for _ in range(rng.randrange(1, 4)):
+            if rng.random() < 0.5:
+                ops.append(["swap", list(rng.sample(range(n), 2))])
+            else:
+                a, b = rng.choice(edges)
+                ops.append([rng.choice(["cx", "cz"]), [a, b] if rng.random() < 0.5 else [b, a]])
+        inputs.append(ops)
+    L = libif.lib()
+    for i, ops_in in enumerate(inputs):
+        case = {"n": n, "connectivity": name, "kind": "compressed", "circuit": ops_in, "strings": []}
+        try:
+            qc = L.sc.compress_preparation_circuit(libif.build_circuit(n, [(o[0], tuple(o[1])) for o in ops_in]), name)
+        except Exception:  # noqa: BLE001
+            rep.count("raised(other properties)", "compressed")
+            continue
+        ops = libif.ops_of(qc)
+        record(rep, "compressed(cheap input with swaps)", n, name, ops, case, coupling_violation(ops, n, name), sample=(i == 3 and n == 4))
+    return rep
+
+
 def shard(arg):
     kind = arg[0]
+    if kind == "cheap":
+        return shard_cheap_inputs(arg[1:])
     if kind == "members":
         return shard_members(arg[1:])
     if kind == "static":
@@ -268,6 +308,9 @@ def run(ctx):
         parts = {2: 1, 3: 1, 4: 2, 5: 6, 6: 16}[n]
         for part in range(parts):
             args.append(("named", n, part, parts, ctx.seed))
+    for (n, name) in coupling.CONFIGS:
+        if n >= 3 and name != "all":
+            args.append(("cheap", n, name, ctx.seed))
     for i in range(16):
         args.append(("measure", ctx.seed * 1000 + i, 12 if q else 1200, ctx.deadline))
     args.sort(key=lambda a: (0 if a[0] in ("members", "table-graphs", "named") else 1, -(a[1] if a[0] in ("members", "table-graphs", "named") else 0)))
@@ -283,4 +326,11 @@ def replay(case):
         return [f for f in rep.failures if f["case"].get("n") == case.get("n") and f["case"].get("connectivity") == case.get("connectivity")]
     if "N" in case:
         return [{"key": k, "msg": m, "case": case} for k, m, e in check_measure_case(case)]
+    if not case.get("strings") and case.get("circuit"):
+        try:
+            qc = libif.lib().sc.compress_preparation_circuit(libif.build_circuit(case["n"], [(o[0], tuple(o[1])) for o in case["circuit"]]), case["connectivity"])
+        except Exception:  # noqa: BLE001
+            return []
+        v = coupling_violation(libif.ops_of(qc), case["n"], case["connectivity"])
+        return [{"key": f"{case['n']}/{case['connectivity']}/{case.get('kind', 'compressed')}", "msg": f"{case['n']}-{case['connectivity']} compressed circuit: {v}", "case": case}] if v else []
     return [{"key": k, "msg": m, "case": case} for k, m, e in check_member_case(case)]
